@@ -567,4 +567,73 @@ theorem matchGeometry_scaled {α : Type} (src : Vol α) (T : Geom) (tol : Rat) (
     rw [hal]
 
 
+/-! ## … and rotations beyond the tolerance -/
+
+/-- the alignment body raises nothing but RuntimeError -/
+theorem mgAlign_err (d s t tol : Rat) (e : ErrKind) (h : mgAlign d s t tol = .error e) : e = .runtime := by
+  unfold mgAlign at h
+  simp only [] at h
+  split_ifs at h <;> simp_all
+
+theorem alignAxis_err (src : Geom) (u : V3) (s tol : Rat) (e : ErrKind) (h : alignAxis src u s tol = .error e) : e = .runtime := by
+  unfold alignAxis at h
+  split at h
+  · rename_i e0 h0; cases h; exact mgAlign_err _ _ _ _ _ h0
+  · cases h
+  · split at h
+    · rename_i e1 h1; cases h; exact mgAlign_err _ _ _ _ _ h1
+    · cases h
+    · split at h
+      · rename_i e2 h2; cases h; exact mgAlign_err _ _ _ _ _ h2
+      · cases h
+      · cases h; rfl
+
+/-- a target axis whose unit vector is within tolerance of no source axis (forwards or backwards) cannot be aligned -/
+theorem alignAxis_unaligned (src : Geom) (u : V3) (s tol : Rat)
+    (h : ∀ j, ¬ (rabs (V3.dot u (src.dir j) - 1) < tol ∨ rabs (V3.dot u (src.dir j) + 1) < tol)) :
+    alignAxis src u s tol = .error .runtime := by
+  unfold alignAxis
+  rw [(mgAlign_direction _ s _ tol).mpr (h 0)]
+  simp only []
+  rw [(mgAlign_direction _ s _ tol).mpr (h 1)]
+  simp only []
+  rw [(mgAlign_direction _ s _ tol).mpr (h 2)]
+
+/-- **rotation beyond the tolerance, whole call**: if some target axis is within tolerance of no source axis, `match_geometry`
+raises RuntimeError (same coordinate system, no conflicting frame of reference) -/
+theorem matchGeometry_unaligned_refused {α : Type} (src : Vol α) (T : Geom) (tol : Rat) (c : PadMode α)
+    (hcs : T.cs = src.geom.cs) (hfor : forConflict src.geom T = false) (i : Ax)
+    (h : ∀ j, ¬ (rabs (V3.dot (T.dir i) (src.geom.dir j) - 1) < tol ∨ rabs (V3.dot (T.dir i) (src.geom.dir j) + 1) < tol)) :
+    matchGeometry src T tol c = .error .runtime := by
+  have hhead : mgHead src.geom.frameOfRef T.frameOfRef src.geom.cs T.cs = .ok true := by
+    rcases mgHead_spec src.geom T with ⟨_, _, hh⟩ | ⟨hb, _⟩
+    · exact hh
+    · rcases hb with hb | hb
+      · rw [hfor] at hb; cases hb
+      · exact absurd hcs.symm hb
+  have hbad := alignAxis_unaligned src.geom (T.dir i) (T.spacing i) tol h
+  have hal : matchAlign src.geom T tol = .error .runtime := by
+    unfold matchAlign
+    cases h0 : alignAxis src.geom (T.dir 0) (T.spacing 0) tol with
+    | error e => rw [alignAxis_err _ _ _ _ _ h0]
+    | ok a0 =>
+      simp only []
+      cases h1 : alignAxis src.geom (T.dir 1) (T.spacing 1) tol with
+      | error e => rw [alignAxis_err _ _ _ _ _ h1]
+      | ok a1 =>
+        simp only []
+        cases h2 : alignAxis src.geom (T.dir 2) (T.spacing 2) tol with
+        | error e => rw [alignAxis_err _ _ _ _ _ h2]
+        | ok a2 =>
+          exfalso
+          rcases ax_cases i with rfl | rfl | rfl
+          · rw [hbad] at h0; cases h0
+          · rw [hbad] at h1; cases h1
+          · rw [hbad] at h2; cases h2
+  unfold matchGeometry
+  rw [hhead]
+  simp only []
+  rw [hal]
+
+
 end HdVerif.Match
